@@ -47,7 +47,9 @@ THEOREMS += ["OdxVerif.Codec." + t for t in [
     'encodeKeyPlaceholder_some', 'encodeDop_key', 'decodeParam_key', 'PLUser.encodeParam_eq', 'PLUser.decodeParam_eq',
     'PLUser.good', 'Obj.encodeParam_pl', 'Obj.decodeParam_pl', 'encKeeps', 'decKeeps', 'Comp.keyFree_of_noKeys',
     'Comp.KOk.ofKeyFree', 'Comp.kstruct_kok', 'KItems.goodS', 'KItems.dec_consistent', 'Comp.ofObjValue_keyFree',
-    'Comp.ofObjConst_keyFree', 'lkExKeyItems_ok', 'lkExKeyItems_side', 'lkExStruct_ok', 'lkExNestItems_ok', 'lkExNestItems_side']]
+    'Comp.ofObjConst_keyFree', 'KeyDop.identical', 'KeyDop.linear', 'KeyDop.placeholder_none', 'KeyDop.placeholder_some',
+    'KeyDop.decodeParam_eq', 'lkExKeyItems_ok', 'lkExKeyItems_side', 'lkExStruct_ok', 'lkExNestItems_ok', 'lkExNestItems_side',
+    'lkExKeyB_keyDop', 'lkExByteItems_ok', 'lkExByteItems_side']]
 RULE = ("well-formed descriptions (envelope wf of DESIGN §6/C01, by construction in harness/odxgen/gen.py) x canonical values "
         "(odxgen/values.py): corpus of past failures; every BYTE-SIZE structure size x offset; every (integer type, encoding, byte order, "
         "bit length, bit position) standard-length DOP with boundary values; floats/strings/byte fields x encodings x byte orders; random "
